@@ -13,7 +13,7 @@ PROP = "C03"
 EXTRA_GENERATORS = ["gen_tables_c03.py"]
 META = {
  "engine": "S-scheduler",
- "text": "Coq theorems (Props/C03.v, closed under the global context) about an executable model of Event.__init__ / EventDefaults / Track.perform_event (Sched/Event.v, transcribed branch by branch over a small Python-value type; parameter names, ALL_EVENT_PARAMETERS and the library defaults are regenerated from the source on every run): every chord voice of a degree event plays tonic + scale[floor(d) mod n] + octave_size*floor(floor(d)/n) + 12*octave + transpose (negative degrees descend), a note event plays note + 12*octave + transpose; amplitude/gate/channel/duration come from the event (dur, amp, velocity folded), else the timeline defaults' current value, else the generated library default, and a default never overrides an explicit value; the event type is the first present of action > patch > control > program_change > osc_address > synth > note|degree for all 2^7 subsets; control/program-change/OSC/synth/action events emit exactly the matching call; an unknown key, note with degree, or no type key raises and emits no call. The model is tied to the repository on every run: ~4000 (quick) / ~60000 (thorough) generated dictionaries are run through Event(dict, defaults) and through a one-track Timeline with a recording OutputDevice, and the Event attributes, every device call with its tick and arguments, and the escaping exception class are compared with the model inside Coq (vm_compute); an independent oracle written from docs/events judges every implementation result on the documented domain and supplies the failing input. Streams of several dictionaries are judged dictionary by dictionary on the documented time grid (a malformed dictionary at ANY position of a stream must raise and play nothing; theorems C03_reject_*_anywhere), and the timeline's defaults are re-assigned between two events of a running track (the defaults in force when a dictionary is due complete it; model Sched/EventCfg.v with the defaults object in its state, theorems C03_current_defaults_complete_the_event, C03_reassigned_default, C03_stream_without_reassignment). Keys given as objects that are HELD and re-tuned in place between two events of the stream (key.tonic =, key.scale =, key.scale.semitones = / replaced or re-ordered in place, two keys on one Scale object; the key named by every dictionary, by some, or only by timeline.defaults.key; the stream scheduled as a pattern of dictionaries or as one dictionary of patterns): model Sched/EventHeld.v (references into the store of Key and Scale objects of Tonal/Held.v, the store in the state, every dictionary read in the store of the moment it is due), theorems C03_held_key_current, C03_held_key_pitch, C03_held_key_pitch_chord, C03_held_reject_unknown_key_anywhere, C03_held_without_retuning; the stream oracle judges every event against the key as it is when the event is due.",
+ "text": "Coq theorems (Props/C03.v, closed under the global context) about an executable model of Event.__init__ / EventDefaults / Track.perform_event (Sched/Event.v, transcribed branch by branch over a small Python-value type; parameter names, ALL_EVENT_PARAMETERS and the library defaults are regenerated from the source on every run): every chord voice of a degree event plays tonic + scale[floor(d) mod n] + octave_size*floor(floor(d)/n) + 12*octave + transpose (negative degrees descend), a note event plays note + 12*octave + transpose; amplitude/gate/channel/duration come from the event (dur, amp, velocity folded), else the timeline defaults' current value, else the generated library default, and a default never overrides an explicit value; the event type is the first present of action > patch > control > program_change > osc_address > synth > note|degree for all 2^7 subsets; control/program-change/OSC/synth/action events emit exactly the matching call; an unknown key, note with degree, or no type key raises and emits no call. The model is tied to the repository on every run: ~4000 (quick) / ~60000 (thorough) generated dictionaries are run through Event(dict, defaults) and through a one-track Timeline with a recording OutputDevice, and the Event attributes, every device call with its tick and arguments, and the escaping exception class are compared with the model inside Coq (vm_compute); an independent oracle written from docs/events judges every implementation result on the documented domain and supplies the failing input. Streams of several dictionaries are judged dictionary by dictionary on the documented time grid (a malformed dictionary at ANY position of a stream must raise and play nothing; theorems C03_reject_*_anywhere), and the timeline's defaults are re-assigned between two events of a running track (the defaults in force when a dictionary is due complete it; model Sched/EventCfg.v with the defaults object in its state, theorems C03_current_defaults_complete_the_event, C03_reassigned_default, C03_stream_without_reassignment). Keys given as objects that are HELD and re-tuned in place between two events of the stream (key.tonic =, key.scale =, key.scale.semitones = / replaced or re-ordered in place, two keys on one Scale object; the key named by every dictionary, by some, or only by timeline.defaults.key; the stream scheduled as a pattern of dictionaries or as one dictionary of patterns): model Sched/EventHeld.v (references into the store of Key and Scale objects of Tonal/Held.v, the store in the state, every dictionary read in the store of the moment it is due), theorems C03_held_key_current, C03_held_key_pitch, C03_held_key_pitch_chord, C03_held_reject_unknown_key_anywhere, C03_held_without_retuning; the stream oracle judges every event against the key as it is when the event is due. Keys given BY NAME are looked up in the registry of scale names of the same store (Sched/EventHeld.v key_of_name_reg; C03_key_name_library: in the freshly imported library this is Sched/Event.v's key_of_name); stream 'named-key' constructs scales, weighted scales (named like the scales in use, or unnamed = 'major'), edited copies of the named scales and keys built from names earlier in the process and between two events whose key is a name (library or user-registered, in the dictionary or as timeline.defaults.key): what a registered name denotes must not change (theorems C03_named_key_pitch, C03_named_key_pitch_chord, C03_key_name_stable).",
  "note": "Trusted: Coq kernel + VM; gen_tables.py / gen_tables_c03.py; the Python harness (case encoding, the recording device, first-value substitution for pattern-valued dictionary entries); CPython int semantics (//, % = Z.div/Z.modulo; int(float) truncates). Modelled, not verified: floats are exact rationals in the model (the harness only generates dyadic rationals on the 1/256 grid, where isobar's round(x, 8) comparisons are exact); SignalFlow patch events are classified but not dispatched; the generic-event ('event' method) device path, on_event callbacks, interpolation and str-typed numbers are outside the model (Unmodelled outcome, such cases are discarded and counted).",
 }
 
@@ -225,20 +225,25 @@ def snippet(case):
         lines.append("track = tl.schedule(iso.PSequence([%s], 1))" % ", ".join(pysrc({"d": e}) for e in case["events"]))
     if case.get("muted"):
         lines.append("track.mute()")
-    changes = case.get("changes") or []
-    for at, kvs in changes:
-        if at == -1:
-            for name, v in kvs:
-                lines.append("tl.defaults.%s = %s    # after schedule(), before the first tick" % (name, pysrc(v)))
-    lines.append("for t in range(%d):" % case["nticks"])
-    lines.append("    n = len(dev.calls); tl.tick(); print(t, dev.calls[n:])")
-    for at, kvs in changes:
-        if at >= 0:
-            lines.append("    if t == %d: %s" % (at, "; ".join("tl.defaults.%s = %s" % (name, pysrc(v)) for name, v in kvs)))
-    for at, ms in case.get("muts") or []:
+    def mut_stmts(ms):
         stm = []
         for m in ms:
-            if m[0] == "tonic":
+            if m[0] == "newscale":
+                nm, semis, osize, how = m[1], m[2], m[3], m[4]
+                stm.append({"Scale": "iso.Scale(%r, %r, octave_size=%d)" % (semis, nm, osize),
+                            "Scale-unnamed": "iso.Scale(%r, octave_size=%d)" % (semis, osize),
+                            "fromnotes": "iso.Scale.fromnotes(%r, name=%r, octave_size=%d)" % (semis, nm, osize),
+                            "WeightedScale": "iso.WeightedScale(%r, %r, %r, octave_size=%d)" % (semis, [1.0 / len(semis)] * len(semis), nm, osize),
+                            "WeightedScale-unnamed": "iso.WeightedScale(%r, %r)" % (semis, [1.0 / len(semis)] * len(semis))}[how])
+            elif m[0] == "copyedit":
+                c = {"copy()": "iso.Scale.byname(%r).copy()", "copy.copy": "__import__('copy').copy(iso.Scale.byname(%r))",
+                     "copy.deepcopy": "__import__('copy').deepcopy(iso.Scale.byname(%r))"}[m[3]] % m[1]
+                stm.append("private = %s" % c + ("; private.semitones = %r" % (m[2],) if m[2] is not None else ""))
+            elif m[0] == "keynamed":
+                nn = NOTE_NAMES12[m[2]]
+                stm.append("held%d = %s" % (m[1], {"Key(t,name)": "iso.Key(%d, %r)" % (m[2], m[3]), "Key(note,name)": "iso.Key(%r, %r)" % (nn, m[3]),
+                                                    "Key('note name')": "iso.Key(%r)" % ("%s %s" % (nn, m[3]))}[m[4]]))
+            elif m[0] == "tonic":
                 stm.append("held%d.tonic = %d" % (m[1], m[2]))
             elif m[0] == "scale":
                 stm.append("held%d.scale = iso.Scale(%r, 'another held scale', octave_size=%d)" % (m[1], m[2], m[3]))
@@ -249,7 +254,24 @@ def snippet(case):
             else:
                 stm.append("(lambda l: l.__setitem__(slice(None), [l[%d] if i == %d else l[%d] if i == %d else x for i, x in enumerate(l)]))(held%d.scale.semitones)   # as Scale.change()"
                            % (m[4][1], m[4][0], m[4][0], m[4][1], m[1]))
-        lines.append("    if t == %d: %s" % (at, "; ".join(stm)))
+        return stm
+    changes = case.get("changes") or []
+    muts = case.get("muts") or []
+    for at, ms in muts:
+        if at == -1:
+            lines.extend(x + "    # earlier in the process, before the first tick" for x in mut_stmts(ms))
+    for at, kvs in changes:
+        if at == -1:
+            for name, v in kvs:
+                lines.append("tl.defaults.%s = %s    # after schedule(), before the first tick" % (name, pysrc(v)))
+    lines.append("for t in range(%d):" % case["nticks"])
+    lines.append("    n = len(dev.calls); tl.tick(); print(t, dev.calls[n:])")
+    for at, ms in muts:
+        if at >= 0:
+            lines.append("    if t == %d: %s" % (at, "; ".join(mut_stmts(ms))))
+    for at, kvs in changes:
+        if at >= 0:
+            lines.append("    if t == %d: %s" % (at, "; ".join("tl.defaults.%s = %s" % (name, pysrc(v)) for name, v in kvs)))
     return "\n".join(lines)
 
 
@@ -403,11 +425,22 @@ def oracle(case, scales, note_names, _probe=False):
         return None
 
 
+LIB_TABLE = []            # [[name, semitones, octave_size], ...] of the freshly imported library, in Scale.dict order (load_tables)
+NOTE_TABLE = []           # util.note_names
+NOTE_NAMES12 = ["C", "C#", "D", "Eb", "E", "F", "F#", "G", "Ab", "A", "Bb", "B"]
+
+
 class HeldStore:
-    """the Key objects a case holds ({"hk": slot}) and the Scale objects they refer to, as they are after the operations applied
-    so far; also renders the operations as Coq terms (Tonal/Held.v hop) for the model, which keeps its own store"""
+    """the Key objects a case holds ({"hk": slot}), the Scale objects they refer to and the names scales are registered under, as
+    they are after the operations applied so far; also renders the operations as Coq terms (Tonal/Held.v hop) for the model,
+    which keeps its own store.  A name denotes the scale FIRST registered under it: the library's scales keep their names."""
     def __init__(self, held):
         self.scales, self.keys, self.next_oid, self.init_ops = {}, {}, 100, []
+        self.reg = {}                                      # name -> object number
+        for i, (name, semis, osize) in enumerate(LIB_TABLE):
+            self.scales[i] = [list(semis), osize]
+            self.reg[name] = i
+        self.user_names = set()
         for slot, tonic, semis, osize, share in held or []:
             if share is None:
                 oid = self.new_scale(semis, osize, self.init_ops)
@@ -416,17 +449,44 @@ class HeldStore:
             self.keys[slot] = [tonic, oid]
             self.init_ops.append("HKey %d %s %d" % (slot, zlit(tonic), oid))
 
-    def new_scale(self, semis, osize, out):
+    def new_scale(self, semis, osize, out, name=None):
         oid = self.next_oid
         self.next_oid += 1
         self.scales[oid] = [list(semis), osize]
-        out.append("HScale %d %s (mkScale %s %s)" % (oid, slit("held-scale-%d" % oid), zlist(semis), zlit(osize)))
+        name = name if name is not None else "held-scale-%d" % oid
+        if name not in self.reg:
+            self.reg[name] = oid
+            self.user_names.add(name)
+        out.append("HScale %d %s (mkScale %s %s)" % (oid, slit(name), zlist(semis), zlit(osize)))
         return oid
 
     def apply(self, m):
-        """perform one in-place operation; returns its Coq rendering"""
+        """perform one operation; returns its Coq rendering"""
         out = []
-        kind, slot = m[0], m[1]
+        kind = m[0]
+        if kind == "newscale":
+            name, semis, osize, how = m[1], m[2], m[3], m[4]
+            if how == "WeightedScale-unnamed":
+                name, osize = "major", 12
+            elif how == "Scale-unnamed":
+                name = "unnamed scale"
+            self.new_scale(semis, osize, out, name)
+            return out
+        if kind == "copyedit":
+            src = self.reg[m[1]]
+            oid = self.next_oid
+            self.next_oid += 1
+            self.scales[oid] = [list(self.scales[src][0]), self.scales[src][1]]
+            out.append("HScaleCopy %d %d" % (oid, src))
+            if m[2] is not None:
+                self.scales[oid][0] = list(m[2])
+                out.append("HSemis %d %s" % (oid, zlist(m[2])))
+            return out
+        if kind == "keynamed":
+            self.keys[m[1]] = [m[2], self.reg[m[3]]]
+            out.append("HKeyNamed %d %s %s" % (m[1], zlit(m[2]), slit(m[3])))
+            return out
+        slot = m[1]
         if kind == "tonic":
             self.keys[slot][0] = m[2]
             out.append("HTonic %d %s" % (slot, zlit(m[2])))
@@ -444,17 +504,31 @@ class HeldStore:
         t, oid = self.keys[slot]
         return {"k": [t, list(self.scales[oid][0]), self.scales[oid][1]]}
 
-    def subst(self, v):
-        """a value with every reference to a held key replaced by the key as it is now"""
+    def named(self, s):
+        """a key given as a string whose scale name was registered by the USER: the key it denotes (the names of the library are
+        left to the oracle, which knows the documented scales)"""
+        parts = s.split(" ")
+        if len(parts) == 2 and parts[1] in self.user_names:
+            for i, names in enumerate(NOTE_TABLE):
+                if parts[0].capitalize() in names:
+                    oid = self.reg[parts[1]]
+                    return {"k": [i, list(self.scales[oid][0]), self.scales[oid][1]]}
+        return s
+
+    def subst(self, v, is_key=False):
+        """a value with every reference to a held key replaced by the key as it is now (and, for the `key` entry, a user-registered
+        name by the key it denotes now)"""
         if isinstance(v, dict):
             if "hk" in v:
                 return self.kdef(v["hk"])
             if "p" in v:
-                return {"p": [self.subst(x) for x in v["p"]]}
+                return {"p": [self.subst(x, is_key) for x in v["p"]]}
+        if is_key and isinstance(v, str):
+            return self.named(v)
         return v
 
     def subst_kvs(self, kvs):
-        return [[k, self.subst(v)] for k, v in kvs]
+        return [[k, self.subst(v, k == "key")] for k, v in kvs]
 
 
 def doc_param(ev, defaults, name, synonyms=()):
@@ -509,7 +583,7 @@ def stream_plan(case):
                 else:
                     cur.append([name, v, 0])
             applied += 1
-        dfl = [[n, store.subst(advance(v, k))] for n, v, k in cur]       # a held key: the key as it is at this moment
+        dfl = [[n, store.subst(advance(v, k), n == "key")] for n, v, k in cur]       # a held key / a user-registered name: the key as it is at this moment
         if any(isinstance(v, dict) and "p" in v and not v["p"] for _n, v in dfl):
             break                                           # an exhausted pattern-valued default: not documented
         plan.append((int(s), dfl, store.subst_kvs(ev)))
@@ -1188,6 +1262,143 @@ class Gen:
         return case, strata
 
 
+    # ---- stream H: keys given BY NAME while scales / weighted scales / copies / keys are constructed in the same process ----
+    def named_key(self):
+        """the events name their key ("C minor", "D major", "E" = E major, "F <user scale>"), in the dictionary or through
+        timeline.defaults.key; earlier in the process and between two events the program constructs other objects: scales and
+        weighted scales called like the scales in use (or like nothing in use), unnamed weighted scales (their default name is
+        "major"), copies of the named scales that are edited afterwards, keys built from names.  None of this may change what a
+        name that is already registered denotes."""
+        r = self.rng
+        tpb = 4
+        strata = []
+        lib = [n for n in self.scale_names if " " not in n]
+        notes = [names[0] for names in self.note_names]
+
+        def scale_def(o=None):
+            o = o or (12 if r.random() < 0.6 else r.randint(5, 24))
+            return sorted(r.sample(range(o), r.randint(2, min(8, o)))), o
+        used = [r.choice(["major", "minor", "major", r.choice(lib)])]
+        if r.random() < 0.5:
+            used.append(r.choice(lib))
+        muts, changes, user = [], [], []
+        store = HeldStore(None)
+        pre = []
+        if r.random() < 0.45:                       # a user scale registered before the track starts, reached by its name later
+            nm = "verifN%d" % self.fresh()
+            semis, o = scale_def(r.randint(5, 24))
+            pre.append(["newscale", nm, semis, o, r.choice(["Scale", "WeightedScale", "fromnotes"])])
+            store.apply(pre[-1])
+            user.append(nm)
+            strata.append("named-key.user-scale-registered-before")
+        next_slot = [0]
+
+        def construction(aim):
+            """one unrelated construction; `aim` = a scale name the stream uses (or None)"""
+            u = r.random()
+            if u < 0.30:
+                nm = aim if aim is not None and r.random() < 0.8 else r.choice(lib + user)
+                semis, o = scale_def(12 if r.random() < 0.7 else None)
+                how = r.choice(["Scale", "Scale", "WeightedScale", "fromnotes"])
+                strata.append("named-key.constructed.same-name-as-%s.%s" % ("library" if nm in lib else "user", how))
+                return ["newscale", nm, semis, o, how]
+            if u < 0.45:
+                strata.append("named-key.constructed.WeightedScale-unnamed")
+                return ["newscale", None, sorted(r.sample(range(12), r.randint(2, 5))), 12, "WeightedScale-unnamed"]
+            if u < 0.52:
+                semis, o = scale_def()
+                strata.append("named-key.constructed.Scale-unnamed")
+                return ["newscale", None, semis, o, "Scale-unnamed"]
+            if u < 0.82:
+                nm = aim if aim is not None and r.random() < 0.8 else r.choice(lib + user)
+                o = store.scales[store.reg[nm]][1]
+                edit = sorted(r.sample(range(o), r.randint(2, min(8, o)))) if r.random() < 0.8 else None
+                how = r.choice(["copy()", "copy()", "copy.copy", "copy.deepcopy"])
+                strata.append("named-key.constructed.copy-of-%s.%s.%s" % ("library" if nm in lib else "user", how, "edited" if edit else "kept"))
+                return ["copyedit", nm, edit, how]
+            if u < 0.92:
+                slot = next_slot[0]
+                next_slot[0] += 1
+                strata.append("named-key.constructed.Key-from-names")
+                return ["keynamed", slot, r.randrange(12), r.choice(used + user + [r.choice(lib)]),
+                        r.choice(["Key(t,name)", "Key(note,name)", "Key('note name')"])]
+            nm = "verifN%d" % self.fresh()
+            semis, o = scale_def()
+            user.append(nm)
+            strata.append("named-key.constructed.new-user-name")
+            return ["newscale", nm, semis, o, r.choice(["Scale", "WeightedScale"])]
+        if r.random() < 0.5:                        # state carried over from earlier, unrelated use of the library
+            for _ in range(r.randint(1, 3)):
+                pre.append(construction(r.choice(used)))
+                store.apply(pre[-1])
+            strata.append("named-key.constructions-before-the-track")
+        if pre:
+            muts.append([-1, pre])
+        pool = r.sample(range(-9, 17), r.randint(2, 4))
+        k = r.randint(4, 8)
+        placement = r.choice(["event"] * 4 + ["default"] * 2)
+        strata.append("named-key.key-in-" + placement)
+        dur = r.choice([1, 1, F(0.5), 2])
+
+        def key_string():
+            nm = r.choice(used + used + user)
+            tn = r.choice(notes)
+            tn = r.choice([tn, tn, tn.lower()])
+            strata.append("named-key.name." + ("user" if nm in user else "library"))
+            if nm == "major" and r.random() < 0.3:
+                return tn
+            return "%s %s" % (tn, nm)
+        keypool = [key_string() for _ in range(r.randint(1, 2))]
+        defaults = []
+        if placement == "default":
+            defaults.append(["key", r.choice(keypool)])
+        if r.random() < 0.3:
+            defaults.append(["octave", r.randint(2, 6)])
+        fixed_oct = r.choice([None, r.randint(0, 7)])
+        evs, s = [], 0
+        forced_gap = r.randrange(k - 1)
+        for j in range(k):
+            dg = T(*[r.choice(pool) for _ in range(r.randint(2, 3))]) if r.random() < 0.25 else r.choice(pool)
+            ev = [["degree", dg]]
+            if placement == "event":
+                ev.append(["key", r.choice(keypool)])
+            if fixed_oct is not None:
+                ev.append(["octave", fixed_oct])
+            ev.append(["duration", dur])
+            evs.append(ev)
+            s_next = s + int(num(dur) * tpb)
+            if j < k - 1 and (j == forced_gap or r.random() < 0.45):
+                at = r.randint(s, s_next - 1)
+                aims = [x.split(" ")[1] if " " in x else "major" for x in keypool]
+                ops = []
+                for _ in range(r.randint(1, 3)):
+                    ops.append(construction(r.choice(aims)))
+                    store.apply(ops[-1])
+                muts.append([at, ops])
+                strata.append("named-key.constructions-between-events")
+                built = [m for m in ops if m[0] == "keynamed"]
+                if placement == "default" and (built or r.random() < 0.3):
+                    # the timeline's default key is re-assigned: to a Key built from names just now, or to another name
+                    v = {"hk": built[-1][1]} if built else key_string()
+                    changes.append([at, [["key", v]]])
+                    strata.append("named-key.default-key-reassigned." + ("Key-built-from-names" if built else "name"))
+                if user and r.random() < 0.5 and len(keypool) < 3:
+                    keypool.append("%s %s" % (r.choice(notes), user[-1]))      # a name registered along the way is used from now on
+            s = s_next
+        mode = "pdictseq" if r.random() < 0.4 else "pseq"
+        strata.append("named-key.scheduled-as-" + ("one-dict-of-patterns" if mode == "pdictseq" else "pattern-of-dicts"))
+        for ev in evs:
+            for _k, v in ev:
+                if notation_like(v):
+                    raise CheckError("generator emitted a string the notation parser would take: %r" % (v,))
+        case = {"tpb": tpb, "nticks": min(80, s + 8), "muted": False, "mode": mode, "defaults": defaults,
+                "events": evs, "direct": evs[0], "muts": muts}
+        if changes:
+            case["changes"] = changes
+        strata.append("named-key.events%d" % k)
+        return case, strata
+
+
 NOTATION = re.compile(r"^(\[|\]|-?[0-9]+(\.[0-9]+)?\b|[a-g]#?[0-9]\b)")
 
 
@@ -1291,6 +1502,11 @@ def generate(run, scales, note_names, n_total):
     for _ in range(max(90, int(n_total * 0.03))):
         case, strata = g.held_key()
         add(case, "held-key", strata)
+    # H: keys given by NAME while other scales / weighted scales / copies / keys are constructed in the process (what a
+    #    registered name denotes must not change)
+    for _ in range(max(90, int(n_total * 0.03))):
+        case, strata = g.named_key()
+        add(case, "named-key", strata)
     run.cov["type_key_subsets_reached"] = "%d of 128 subsets of {action, patch, control, program_change, osc_address, synth, note|degree}" % len({(m, s != "none") for m, s in subsets_seen})
     return cases
 
@@ -1314,7 +1530,7 @@ def cfg_term(c, fn, tail=""):
 
 
 def held_term(c, fn, tail=""):
-    store = HeldStore(c["held"])
+    store = HeldStore(c.get("held"))
     init = lst(store.init_ops)
     ms = []
     for at, ops in sorted(c.get("muts") or [], key=lambda x: x[0]):
@@ -1441,7 +1657,7 @@ def run_cases(run, cases, scales, note_names):
             # the timeline is re-configured while the track runs: the model keeps the defaults object in its state and
             # works out itself which dictionary is due under which defaults (Sched/EventCfg.v)
             t2 = cfg_term(c, "cfg_agrees", "%s %s" % (optlit(res["raise"], slit), trace_lit(res["trace"])))
-        if c.get("held"):
+        if c.get("held") or c.get("muts"):
             # the key of the events is a held object that is re-tuned in place while the track runs: the model keeps the store of
             # Key and Scale objects in its state and asks the object as it is when a dictionary is due (Sched/EventHeld.v)
             t2 = held_term(c, "held_agrees", "%s %s" % (optlit(res["raise"], slit), trace_lit(res["trace"])))
@@ -1489,6 +1705,8 @@ def load_tables(run):
     scales = dict((n, (s, o)) for n, s, o in info["scales"])
     c13 = run.impl("c13_impl", {"list": True})
     note_names = c13["note_names"]
+    global LIB_TABLE, NOTE_TABLE
+    LIB_TABLE, NOTE_TABLE = [list(x) for x in info["scales"]], note_names
     # the oracle's library defaults and parameter list: read from the generated Coq table's source of truth (the
     # repository constants), through the driver-independent generator output
     txt = open(os.path.join(COQDIR, "Generated", "TablesC03.v")).read()
@@ -1530,7 +1748,8 @@ def check(run):
                        "every subset of the six type keys x {none, note, degree, both}, malformed dictionaries, sequences of 2-3 dictionaries, "
                        "streams whose k-th dictionary (k = 0..3) is malformed, streams of 2-6 dictionaries during which timeline.defaults.<name> is "
                        "re-assigned between two ticks (also between schedule() and the first tick, constants and patterns, replayed dictionary objects), "
-                       "streams of 4-8 degree events whose key is a held Key object that is re-tuned in place between two events; "
+                       "streams of 4-8 degree events whose key is a held Key object that is re-tuned in place between two events, "
+                       "streams of 4-8 degree events whose key is a NAME while same-named scales / unnamed weighted scales / edited copies / keys are constructed in between; "
                        "distinct by the encoded case; non-trivial = the device received at least one call or an exception escaped")
 
 
@@ -1550,7 +1769,7 @@ def replay(run, doc):
     print("documented:", json.dumps(exp))
     me = model_events(case)
     evs = lst(["(%s, %s)" % (defs_lit(dfl), dlit(d)) for dfl, d in me])
-    if case.get("held"):
+    if case.get("held") or case.get("muts"):
         print("documented (stream):", json.dumps(oracle_stream(case, scales, note_names)))
         print("model:", run.coq_eval(HEADER, held_term(case, "run_held")))
     elif case.get("changes"):
